@@ -673,6 +673,133 @@ theorem balancedMembers_class_balance (members : List (List Nat)) (seq : List Na
       ((List.range mc.length).filter fun j => (a + j) % k = q).length + 1 :=
   ⟨CVMembers.members_window members seq h c mc hc, dealing_class_balance k _ mc.length p q hk hp hq⟩
 
+/-! ## gathering (`subBatch`) at batch completion = gathering first -/
+
+theorem mapM_pick_spec (set : LabeledData ι κ) (hw : C03.WF set) : ∀ (chunks : List (List Nat)) (R : List (List (ι × κ))),
+    chunks.mapM (pick set) = .ok R →
+    R.map (·.map some) = chunks.map (·.map (fun i => (C03.pairs set)[i]?)) := by
+  intro chunks
+  induction chunks with
+  | nil => intro R h; simp [List.mapM_nil, pure, Except.pure] at h; subst h; rfl
+  | cons c cs ih =>
+    intro R h
+    simp only [List.mapM_cons, bind_ok, pure_ok] at h
+    obtain ⟨b, hb, bs, hbs, rfl⟩ := h
+    simp [pick_eq set hw c b hb, ih bs hbs]
+
+theorem map_some_injective {γ : Type} (a b : List γ) (h : a.map some = b.map some) : a = b := by
+  have := congrArg (List.filterMap id) h
+  simpa [List.filterMap_map] using this
+
+/-- **gathering batch by batch = cutting the gathered sequence**: the C++ calls `subBatch(setView, batchElements[fold])`
+when a batch is complete, the model gathers all processing positions first and runs the dealing loop on the gathered
+elements.  On a well-formed dataset and existing positions both give the same batches: gathering the pieces of any cut
+of the position sequence yields the pieces of the gathered sequence. -/
+theorem pick_chunks (set : LabeledData ι κ) (hw : C03.WF set) (pos : List Nat) (sizes : List Nat)
+    (hpos : ∀ i ∈ pos, i < set.numberOfElements) (hsum : sizes.sum = pos.length) :
+    ∃ els, pick set pos = .ok els ∧ (splitBySizes pos sizes).mapM (pick set) = .ok (splitBySizes els sizes) := by
+  obtain ⟨els, hels⟩ := pick_ok set hw pos hpos
+  refine ⟨els, hels, ?_⟩
+  have he := pick_eq set hw pos els hels
+  -- every piece can be gathered
+  obtain ⟨R, hR⟩ := mapM_R_ok (pick set) (splitBySizes pos sizes) (by
+    intro chunk hc
+    apply pick_ok set hw chunk
+    intro i hi
+    apply hpos
+    rw [← splitBySizes_flatten sizes pos hsum]
+    exact List.mem_flatten.mpr ⟨chunk, hc, hi⟩)
+  rw [hR]
+  congr 1
+  have h1 := mapM_pick_spec set hw _ _ hR
+  rw [splitBySizes_map, ← he, ← splitBySizes_map] at h1
+  -- `map (map some)` is injective
+  have inj : ∀ (X Y : List (List (ι × κ))), X.map (·.map some) = Y.map (·.map some) → X = Y := by
+    intro X
+    induction X with
+    | nil => intro Y h; cases Y with
+      | nil => rfl
+      | cons y Y => simp at h
+    | cons x X ih =>
+      intro Y h
+      cases Y with
+      | nil => simp at h
+      | cons y Y =>
+        simp only [List.map_cons, List.cons.injEq] at h
+        rw [map_some_injective x y h.1, ih Y h.2]
+  exact inj _ _ h1
+
+theorem group_map {γ δ : Type} (g : γ → δ) (els : List γ) (tags : List Nat) (p : Nat) :
+    ((List.zip (els.map g) tags).filter (fun x => x.2 = p)).map (·.1) =
+      (((List.zip els tags).filter (fun x => x.2 = p)).map (·.1)).map g := by
+  induction els generalizing tags with
+  | nil => simp
+  | cons e es ih =>
+    cases tags with
+    | nil => simp
+    | cons t ts =>
+      simp only [List.map_cons, List.zip_cons_cons, List.filter_cons]
+      by_cases h : t = p <;> simp [h, ih]
+
+/-- **dealing positions and gathering every completed batch = the model's dealing of gathered elements**: on a
+well-formed dataset, for existing positions and fold numbers below k, run the dealing loop on the *positions* (as the
+C++ does: `batchElements` holds positions) and gather each batch of `newSet` with `subBatch` — the batches are exactly
+those the model computes by gathering first (`dealLoop_regroup`), i.e. `regroup`'s -/
+theorem deal_positions_then_gather (set : LabeledData ι κ) (hw : C03.WF set) (k : Nat) (assign : List (Nat × Nat)) (bs : Nat)
+    (hall : ∀ a ∈ assign, a.2 < k) (hpos : ∀ a ∈ assign, a.1 < set.numberOfElements) :
+    let counts := (List.range k).map fun p => (assign.filter (fun a => a.2 = p)).length
+    ∃ els posBatches, pick set (assign.map (·.1)) = .ok els ∧
+      dealLoop assign k (counts.map fun p => (obsAny bs p).length).sum (starts (counts.map fun p => (obsAny bs p).length) 0)
+        (counts.flatMap (obsAny bs)) = some posBatches ∧
+      posBatches.mapM (pick set) = .ok (splitBySizes
+        ((List.range k).flatMap fun p => ((List.zip els (assign.map (·.2))).filter (·.2 = p)).map (·.1))
+        (counts.flatMap (obsAny bs))) := by
+  intro counts
+  obtain ⟨els, hels⟩ := pick_ok set hw (assign.map (·.1)) (by
+    intro i hi
+    simp only [List.mem_map] at hi
+    obtain ⟨a, ha, rfl⟩ := hi
+    exact hpos a ha)
+  have he := pick_eq set hw _ els hels
+  -- the loop on the positions
+  have hd := dealLoop_regroup (assign.map (·.1)) k assign bs hall (by simp)
+  simp only at hd
+  have hz : List.zip (assign.map (·.1)) (assign.map (·.2)) = assign := zip_map_fst_snd assign
+  rw [hz] at hd
+  let orderedPos := (List.range k).flatMap fun p => (assign.filter (fun x => x.2 = p)).map (·.1)
+  have hlen : (counts.flatMap (obsAny bs)).sum = orderedPos.length := by
+    have h1 : (counts.flatMap (obsAny bs)).sum = assign.length := by
+      rw [sum_flatMap]
+      have : (counts.map fun x => (obsAny bs x).sum) = counts := by
+        conv => rhs; rw [← List.map_id counts]
+        apply List.map_congr_left
+        intro p _
+        exact obsAny_sum bs p
+      rw [this]
+      exact sum_group_lengths (fun a : Nat × Nat => a.2) k assign hall
+    have h2 : orderedPos.length = assign.length := by
+      have := (perm_flatMap_filter (fun a : Nat × Nat => a.2) k assign hall).map (·.1)
+      have hl := this.length_eq
+      simpa [orderedPos, List.map_flatMap] using hl
+    omega
+  obtain ⟨els', hels', hchunks⟩ := pick_chunks set hw orderedPos (counts.flatMap (obsAny bs)) (by
+    intro i hi
+    simp only [orderedPos, List.mem_flatMap, List.mem_map, List.mem_filter] at hi
+    obtain ⟨_, _, a, ⟨ha, _⟩, rfl⟩ := hi
+    exact hpos a ha) hlen
+  refine ⟨els, _, hels, hd, ?_⟩
+  rw [hchunks]
+  congr 2
+  -- gathering the grouped positions = grouping the gathered elements
+  apply map_some_injective
+  rw [pick_eq set hw orderedPos els' hels']
+  simp only [orderedPos, List.map_flatMap]
+  apply flatMap_congr'
+  intro p _
+  rw [← group_map, he, group_map]
+  congr 1
+  rw [hz]
+
 /-! ## non-vacuity -/
 example : complementSD [3, 1, 3] 5 = [0, 2, 4] := by rw [complementSD_eq]; decide
 /-- witness that the sort in `detail::complement` is needed: the single merge pass over the unsorted index set
